@@ -20,6 +20,7 @@ func init() {
 		Assumptions: []string{"generated getters GetX() return field X"},
 		Run:         runC14,
 		Controls: []Control{
+			{Name: "preset-assigned-after-the-projection", File: "pkg/trait/openclosepb/model.go", Old: "\t\t\tpositions.Preset, _ = m.presetForValue(positions.States)\n\n\t\t\t// projection and filtering, positions refers to stored values so must not be modified in place\n\t\t\tpositions = responseFilter.FilterClone(positions).(*traits.OpenClosePositions)\n", New: "\t\t\t// projection and filtering, positions refers to stored values so must not be modified in place\n\t\t\tpositions = responseFilter.FilterClone(positions).(*traits.OpenClosePositions)\n\t\t\tpositions.Preset, _ = m.presetForValue(positions.States)\n", Expect: "R14.25"},
 			{Name: "positions-read-options-forwarded-to-the-items", File: "pkg/trait/openclosepb/model.go", Old: "\t\tfor change := range m.positions.Pull(ctx) {\n", New: "\t\tfor change := range m.positions.Pull(ctx, ops...) {\n", Expect: "R14.18"},
 			{Name: "ramp-final-write-unconditional", File: "pkg/trait/lightpb/memory.go", Old: "\t\t\t\t\t\tresource.WithResetPaths(\"target_level_percent\", \"brightness_tween\"),\n\t\t\t\t\t\tresource.WithExpectedValue(lastObj),\n", New: "\t\t\t\t\t\tresource.WithResetPaths(\"target_level_percent\", \"brightness_tween\"),\n", Expect: "R14.21"},
 			{Name: "positions-forwarder-stops-on-unchanged", File: "pkg/trait/openclosepb/model.go", Old: "\t\t\tif eq(last, positions) {\n\t\t\t\tcontinue\n\t\t\t}\n", New: "\t\t\tif eq(last, positions) {\n\t\t\t\treturn\n\t\t\t}\n", Expect: "R14.17"},
@@ -205,6 +206,8 @@ func runC14(c *an.Ctx) {
 	c.Min("R14.23", 1)
 	shareAs(c, "R01.1", "R14.24", r011, nil) // a rejected Update leaves Get unchanged: validation comes before the write (shared with R01.1)
 	c.Min("R14.24", 4)
+	r1425(c, "R14.25")
+	c.Min("R14.25", 5)
 	r1421(c, "R14.21")
 	c.Min("R14.21", 2)
 	rWriteOptsForwarded(c, "R14.22", "pkg/trait") // the caller's write options reach the register's write (shared with R19.8)
@@ -1357,4 +1360,64 @@ func r1421(c *an.Ctx, rule string) {
 		}
 	}
 	c.Count("background_writes", n)
+}
+
+// r1425: what a read mask has projected is final. A field assigned AFTER the projection (openclose: the preset derived
+// from the states, stored into the already filtered message) is outside the mask's control: with read_mask=[states]
+// the stream carries a preset the mask excludes and Get(mask) and Pull(mask) disagree; assigned before the
+// projection and filtered with the rest it is right. No store goes through a message that is the result of
+// ResponseFilter.FilterClone in the trait packages.
+func r1425(c *an.Ctx, rule string) {
+	n := 0
+	fc := "pkg/masks.ResponseFilter).FilterClone"
+	for _, fn := range c.Prog.FuncsIn("pkg/trait") {
+		if c.Prog.IsGenerated(fn.Pos()) || strings.HasSuffix(c.Prog.RelFile(fn.Pos()), "_test.go") {
+			continue
+		}
+		has := false
+		an.Instrs(fn, func(in ssa.Instruction) {
+			if call, ok := in.(*ssa.Call); ok && strings.HasSuffix(an.CalleeName(call), fc) {
+				has = true
+			}
+		})
+		if !has {
+			continue
+		}
+		n++
+		var bad ssa.Instruction
+		an.Instrs(fn, func(in ssa.Instruction) {
+			st, ok := in.(*ssa.Store)
+			if !ok {
+				return
+			}
+			fa, isFA := st.Addr.(*ssa.FieldAddr)
+			if !isFA {
+				return
+			}
+			for _, v := range an.ValuesAt(fa.X) {
+				var call *ssa.Call
+				switch x := v.(type) {
+				case *ssa.Call:
+					call = x
+				case *ssa.TypeAssert:
+					for _, s := range an.ValuesAt(x.X) {
+						if cl, isC := s.(*ssa.Call); isC {
+							call = cl
+						}
+					}
+				}
+				if call != nil && strings.HasSuffix(an.CalleeName(call), fc) {
+					bad = in
+				}
+			}
+		})
+		pos := fn.Pos()
+		if bad != nil {
+			pos = bad.Pos()
+		}
+		c.SawFunc(an.FuncName(fn))
+		c.Check(bad == nil, rule, an.FuncName(fn)+"|nothing is assigned to a message after its projection", pos, "no store through a FilterClone result",
+			"a field of the projected message is assigned after the read mask was applied: it reaches the subscriber whatever the mask says, and a field the mask names but that is derived later is missing when the projection decides what to send")
+	}
+	c.Count("functions_projecting_with_FilterClone", n)
 }
